@@ -74,7 +74,9 @@ impl Check for C15 {
         let mut src = Src::new(choice);
         let cb = src.fork_bytes(48);
         let mut csrc = Src::new(&cb);
-        let opts = ModGenOpts { max_dim: 160, multi_group: 20, orientation: true, ..Default::default() };
+        // a third of the cases declare 16-bit buffers (integer grids survive to the output stage)
+        let narrow = src.tail_fork_bytes(1)[0] % 3 == 0;
+        let opts = ModGenOpts { max_dim: 160, multi_group: 20, orientation: true, narrow, allow_float: !narrow, ..Default::default() };
         let case = gen_modular_case(&mut src, &opts);
         let o_tag = case.ih.orientation;
         let mut o = Outcome::pass();
@@ -88,6 +90,9 @@ impl Check for C15 {
         o.nontrivial = (o_tag != 1 || !case.ih.ec_info.is_empty()) && w != h;
         o.case_hash = (crate::engine::fnv(&case.bytes) ^ ((cw * 31 + chh * 7 + cl * 3 + ct) as u64)) | 1;
         o.classes.push(format!("orientation:{o_tag}"));
+        if narrow {
+            o.classes.push("buffers:16bit".into());
+        }
         o.classes.push(format!("ec:{}", case.ih.ec_info.len()));
         let alpha_idx = case.ih.ec_info.iter().position(|e| matches!(e.ty, EcTypeSpec::Alpha { .. }));
         if alpha_idx.is_some() {
